@@ -24,7 +24,11 @@ def ret_sites(fn):
                 elif r[0] == "use" and r[1][0] == "k":
                     out.append((bi, "const", r[1][1]))
                 elif r[0] == "use":
-                    out.append((bi, "move", r[1]))
+                    exp = _expand_move(fn, r[1], 4, set())
+                    if exp:
+                        out += exp
+                    else:
+                        out.append((bi, "move", r[1]))
                 else:
                     out.append((bi, "other", r))
         t = b["t"]
@@ -34,6 +38,39 @@ def ret_sites(fn):
                 out.append((bi, "residual", c))
             else:
                 out.append((bi, "call", c))
+    return out
+
+
+def _expand_move(fn, op, depth, seen):
+    """`_0 = move x` where x is itself assigned whole values on several paths (e.g. the result of a spliced-in helper):
+    the sites that build those values -> [(bb, kind, payload)] or [] when x is not of that form"""
+    if op[0] not in ("c", "m") or op[1][1] or depth <= 0 or op[1][0] in seen or 1 <= op[1][0] <= fn.argc:
+        return []
+    local = op[1][0]
+    seen = seen | {local}
+    out = []
+    defs = [d for d in fn.defs().get(local, []) if not fn.is_cleanup(d[0])]
+    if not defs:
+        return []
+    for (dbb, si, dk, payload) in defs:
+        if dk == "call":
+            c = Call(fn, dbb, payload, False)
+            out.append((dbb, "residual" if re.search(RESIDUAL, c.callee or "") else "call", c))
+        elif dk == "assign" and not payload["p"][1]:
+            r = payload["r"]
+            if r[0] == "agg" and r[1].get("k") == "adt":
+                out.append((dbb, r[1]["variant"], r))
+            elif r[0] == "use" and r[1][0] == "k":
+                out.append((dbb, "const", r[1][1]))
+            elif r[0] == "use":
+                sub = _expand_move(fn, r[1], depth - 1, seen)
+                if not sub:
+                    return []
+                out += sub
+            else:
+                return []
+        else:
+            return []
     return out
 
 
@@ -235,6 +272,15 @@ def leaf_values(fn, op, depth=32):
                 go(o[1][0], list(o[1][1]) + projs, d - 1)
             elif r[0] in ("ref",) and projs and projs[0][0] == "d":
                 go(r[2][0], list(r[2][1]) + projs[1:], d - 1)
+            elif r[0] in ("ref",) and r[2][1] and r[2][1][-1][0] == "d":
+                # a reborrow `&*x` is the reference x itself
+                go(r[2][0], list(r[2][1][:-1]) + projs, d - 1)
+            elif r[0] in ("ref",) and not projs:
+                # `&x`: for provenance the reference stands for the value of x
+                if r[2][0] > fn.argc and (r[2][0], repr(list(r[2][1]))) not in seen:
+                    go(r[2][0], list(r[2][1]), d - 1)
+                else:
+                    out.append(("place", r[2][0], list(r[2][1])))
             elif r[0] == "agg":
                 kind = r[1]
                 ops = r[2]
